@@ -345,8 +345,16 @@ ScopeVariants == <<
     <<B("2015083O"), B("us-east-1"), B("service"), B("aws4_request")>>,
     << <<>>, B("us-east-1"), B("service"), B("aws4_request")>>,
     <<B("20150830"), B("us"), B("us-east"), B("aws4_request")>>,
-    <<B("20150830"), <<195, 169>>, B("s3"), B("aws4_request")>> >>
-ScopeCfgs == << <<B("us-east-1"), B("service")>>, <<B("us"), B("us-east")>>, << <<195, 169>>, B("s3")>> >>
+    <<B("20150830"), <<195, 169>>, B("s3"), B("aws4_request")>>,
+    \* decorated region names are other regions; escapes in a credential are not decoded on the header carrier
+    <<B("20150830"), B("us-east-1-fips"), B("service"), B("aws4_request")>>,
+    <<B("20150830"), B("fips-us-east-1"), B("service"), B("aws4_request")>>,
+    <<B("20150830"), B("us%2Deast%2D1"), B("service"), B("aws4_request")>>,
+    <<B("20150830"), B("us-east-1"), B("service"), B("aws4%5Frequest")>>,
+    <<B("20150830%2Fus-east-1%2Fservice%2Faws4_request")>>,
+    <<B("20150830"), B("us-east-1"), B("service%2Faws4_request")>> >>
+ScopeCfgs == << <<B("us-east-1"), B("service")>>, <<B("us"), B("us-east")>>, << <<195, 169>>, B("s3")>>,
+               <<B("us-east-1-fips"), B("service")>>, <<B("fips-us-east-1"), B("service")>> >>
 \* timestamps near midnight UTC and offsets that move the UTC date: <<timestamp, now, credential date>>
 MidnightCases == <<
     <<B("20150830T235959Z"), Inst(2015, 8, 30, 23, 59, 59, 0), B("20150830")>>,
@@ -493,6 +501,24 @@ DupCases == <<
                           !.L.body = B("X-Amz-Security-Token=tokenBODY&X-Amz-SignedHeaders=host%3Bx-none&X-Amz-Signature=00")], <<>>, NoOver),
     WithPost([QryB EXCEPT !.cfg.fold = TRUE, !.L.method = B("POST"), !.L.hdrs = @ \o <<FormHdr>>, !.L.hasToken = TRUE, !.L.token = B("tokenURL"),
                           !.L.body = B("X-Amz-Security-Token=tokenBODY")], <<>>, NoOver),
+    \* Date listed in SignedHeaders, X-Amz-Date present but not listed: X-Amz-Date still is the request time
+    WithPost([HdrB EXCEPT !.L.signed = <<B("date"), B("host")>>],
+             << [k |-> "hdrins", at |-> 2, name |-> B("Date"), v |-> TsB] >>, [ts |-> TsA]),
+    WithPost([HdrB EXCEPT !.L.signed = <<B("date"), B("host")>>],
+             << [k |-> "hdrins", at |-> 3, name |-> B("Date"), v |-> TsB] >>, [ts |-> TsA]),
+    WithPost([HdrB EXCEPT !.L.signed = <<B("date"), B("host")>>, !.L.ts = B("20150830T113600Z")],
+             << [k |-> "hdrins", at |-> 2, name |-> B("Date"), v |-> TsA] >>, [ts |-> B("20150830T113600Z")]),
+    WithPost([HdrB EXCEPT !.L.signed = <<B("date"), B("host")>>],
+             << [k |-> "hdrins", at |-> 2, name |-> B("Date"), v |-> B("20150830T113600Z")] >>, [ts |-> TsA]),
+    \* a long parameter list (unknown parameters are legal) with Credential / Signature repeated at both ends: the last counts
+    WithPost(HdrB, << [k |-> "hdrset", h |-> 3, v |-> bAlgorithm \o B(" Credential=") \o CredOf(B("WRONG")) \o B(", Signature=00, ")
+                                                    \o Join([i \in 1..29 |-> B("x") \o Dec(i, 2) \o B("=") \o Dec(i, 1)], B(", "))
+                                                    \o B(", SignedHeaders=host;x-amz-date, Credential=") \o CredOf(B("AKIDEXAMPLE"))
+                                                    \o B(", Signature=") \o bSIG] >>, NoOver),
+    WithPost(HdrB, << [k |-> "hdrset", h |-> 3, v |-> bAlgorithm \o B(" Credential=") \o CredOf(B("AKIDEXAMPLE")) \o B(", Signature=") \o bSIG \o B(", ")
+                                                    \o Join([i \in 1..29 |-> B("x") \o Dec(i, 2) \o B("=") \o Dec(i, 1)], B(", "))
+                                                    \o B(", SignedHeaders=host;x-amz-date, Credential=") \o CredOf(B("WRONG"))
+                                                    \o B(", Signature=00")] >>, [cred |-> CredOf(B("AKIDEXAMPLE"))]),
     \* only a Date header
     WithPost([HdrB EXCEPT !.L.dateHeader = B("Date"), !.L.signed = <<B("date"), B("host")>>], <<>>, NoOver),
     \* two security-token headers: the first one is handed to the provider
@@ -685,7 +711,7 @@ Dim(k) ==
       [] Family = "cfgmix"   -> V(<<2, 2, 2, 3, 3, 2, 2, 2, 2, 3, 4>>, k)
       [] Family = "forever"  -> V(<<2, 3, 2>>, k)
       [] Family = "s3hash"   -> V(<<2, 2, 4, 2, 2>>, k)
-      [] Family = "akid"     -> V(<<2, 5, 3>>, k)
+      [] Family = "akid"     -> V(<<2, 8, 3>>, k)
       [] Family = "zerokey"  -> V(<<2, 4>>, k)
       [] Family = "ioerr"    -> V(<<8, 2, 2>>, k)
       [] Family = "adapter"  -> V(<<2, 3, 4, 4>>, k)
@@ -924,9 +950,12 @@ BundleOf ==
       [] Family = "akid" ->
             \* access key ids at the limits: empty, 1, 128, 129 and 300 characters; provider knows / does not know the key
             LET b == Bundle0(CarrierOf(idx[1]))
-                n == <<0, 1, 128, 129, 300>>[idx[2]]
+                n == <<0, 1, 128, 129, 300, 0, 0, 0>>[idx[2]]
                 outc == <<"ok", "sigerr", "foreign">>
-            IN [b EXCEPT !.L.akid = [i \in 1..n |-> 65 + (i % 26)], !.script.answer = outc[idx[3]]]
+                \* 6..8: characters that a percent-decoder or a form-decoder would change: the provider gets them verbatim
+                ak == CASE idx[2] = 6 -> B("AKID%45XAMPLE") [] idx[2] = 7 -> B("AKID+EXAMPLE%") [] idx[2] = 8 -> B("AKID EXAMPLE%2F")
+                        [] OTHER -> [i \in 1..n |-> 65 + (i % 26)]
+            IN [b EXCEPT !.L.akid = ak, !.script.answer = outc[idx[3]]]
       [] Family = "zerokey" ->
             \* the provider refuses the access key; the request is signed with an all-zero signing key
             LET b == Bundle0(CarrierOf(idx[1]))
